@@ -289,6 +289,111 @@ fn sequences(n: usize, a: usize, b: usize) -> Vec<Vec<usize>> {
     rec(n, b, &mut vec![a], &mut out);
     out
 }
+/// from == to: the documentation does not say what a simple path from a node to itself is; the implementation yields the
+/// simple cycles through the node. What is asked here is only that the answer is uniform: every yielded sequence is a
+/// simple cycle through `a` made of existing edges whose intermediate count is within the bounds, and if anything is
+/// yielded at all then every such cycle is.
+struct ClosedPaths {
+    n: usize,
+    a: usize,
+    min: usize,
+    max: Option<usize>,
+}
+fn closed_sequences(n: usize, a: usize) -> Vec<Vec<usize>> {
+    fn rec(n: usize, a: usize, cur: &mut Vec<usize>, out: &mut Vec<Vec<usize>>) {
+        let mut c = cur.clone();
+        c.push(a);
+        out.push(c);
+        for v in 0..n {
+            if v == a || cur.contains(&v) {
+                continue;
+            }
+            cur.push(v);
+            rec(n, a, cur, out);
+            cur.pop();
+        }
+    }
+    let mut out = vec![];
+    rec(n, a, &mut vec![a], &mut out);
+    out
+}
+impl Harness for ClosedPaths {
+    fn name(&self) -> String {
+        format!("closed_paths/n{}/at{}/min{}max{:?}", self.n, self.a, self.min, self.max)
+    }
+    fn bounds(&self) -> String {
+        format!("directed SymGraph n={} with self-loops; all_simple_paths(a, a, min, max): all-or-nothing uniformity of the yielded cycles", self.n)
+    }
+    fn run(&self, cfg: &Config) -> Stats {
+        let n = self.n;
+        explore(
+            cfg,
+            || SymGraph::<(), Directed>::new("a", n, true),
+            |g| {
+                let got: Vec<Vec<usize>> = all_simple_paths::<Vec<usize>, _, std::collections::hash_map::RandomState>(g, self.a, self.a, self.min, self.max).collect();
+                // without an upper bound the implementation limits a path to node_count - 2 intermediate nodes (the most an open path can have)
+                let maxi = self.max.unwrap_or(n - 2);
+                let cands = closed_sequences(n, self.a);
+                for p in &got {
+                    if !cands.contains(p) {
+                        fail("closed_paths/is_simple_cycle", &format!("{:?}", p));
+                        return;
+                    }
+                }
+                for seq in &cands {
+                    let inter = seq.len() - 2;
+                    let present = and(&seq.windows(2).map(|w| g.var(w[0], w[1])).collect::<Vec<_>>());
+                    let times = got.iter().filter(|p| *p == seq).count();
+                    if times > 1 {
+                        fail("closed_paths/each_once", &format!("{:?} yielded {} times", seq, times));
+                    }
+                    if inter < self.min || inter > maxi {
+                        if times > 0 {
+                            fail("closed_paths/within_bounds", &format!("{:?} has {} intermediate nodes", seq, inter));
+                        }
+                    } else if times >= 1 {
+                        check_d("closed_paths/edges_exist", &present, &format!("{:?}", seq));
+                    } else if !got.is_empty() {
+                        check_d("closed_paths/all_or_nothing", &not(&present), &format!("{:?} is not yielded although {:?} are", seq, got));
+                    }
+                }
+            },
+        )
+    }
+    fn replay(&self, _c: &str, m: &Model) -> Replay {
+        use petgraph::graph::{Graph, NodeIndex};
+        let n = self.n;
+        let a = model_adj(n, true, m);
+        let mut g: Graph<(), (), Directed> = Graph::default();
+        for _ in 0..n {
+            g.add_node(());
+        }
+        for i in 0..n {
+            for j in (0..n).rev() {
+                if a[i][j] {
+                    g.add_edge(NodeIndex::new(i), NodeIndex::new(j), ());
+                }
+            }
+        }
+        let got: Vec<Vec<usize>> = all_simple_paths::<Vec<NodeIndex>, _, std::collections::hash_map::RandomState>(&g, NodeIndex::new(self.a), NodeIndex::new(self.a), self.min, self.max)
+            .map(|p| p.into_iter().map(|x| x.index()).collect())
+            .collect();
+        let maxi = self.max.unwrap_or(n - 2);
+        let want: Vec<Vec<usize>> = closed_sequences(n, self.a).into_iter().filter(|s| s.len() - 2 >= self.min && s.len() - 2 <= maxi && s.windows(2).all(|w| a[w[0]][w[1]])).collect();
+        let desc = format!("adjacency {:?} at {} min {} max {:?}", a, self.a, self.min, self.max);
+        let mut gs = got.clone();
+        gs.sort();
+        let mut ws = want.clone();
+        ws.sort();
+        let subset = gs.iter().all(|p| ws.contains(p));
+        if !subset || (!gs.is_empty() && gs != ws) {
+            Replay::Reproduced("closed_paths/not-uniform".into(), format!("{}: yielded {:?}, the simple cycles within the bounds are {:?}", desc, gs, ws))
+        } else {
+            Replay::NotReproduced(desc)
+        }
+    }
+}
+
 impl Harness for PathsTred {
     fn name(&self) -> String {
         format!("paths_tred/n{}/{}to{}/min{}max{:?}/part{}of{}", self.n, self.from, self.to, self.min, self.max, self.split_val, 1usize << self.split_bits)
@@ -730,6 +835,9 @@ fn make(tier: &str, seed: u64) -> Vec<Box<dyn Harness>> {
         for val in 0..16 {
             v.push(Box::new(PathsTred { n: 4, from, to, min: *min, max: *max, split_bits: 4, split_val: val }));
         }
+    }
+    for (a, min, max) in [(0usize, 0usize, None), (1, 0, Some(2usize)), (2, 1, Some(1)), (0, 0, Some(1))] {
+        v.push(Box::new(ClosedPaths { n: 3, a, min, max }));
     }
     // contradictory or unreachable bounds (more intermediate nodes demanded than allowed / than exist): no path qualifies
     for (min, max) in [(2usize, Some(1usize)), (1, Some(0)), (3, None), (3, Some(2)), (2, Some(0))] {
